@@ -35,7 +35,8 @@ var gateSites = map[string]bool{
 	"op.start": true, "txn.enter": true, "post.before": true, "post.after": true,
 	"update.read.done": true, "subdoc.read.done": true, "wuwx.read.done": true,
 	"feed.backfill.done": true, "feed.registered": true, "feed.deliver": true, "feed.term": true, "feed.exit": true,
-	"exp.fire": true, "open.cachemiss": true, "open.beforeregister": true, "close.unregistered": true,
+	"exp.fire": true, "exp.locked": true, "exp.done": true, // (the last two with the expiry mutex held: only the shutdown driver enables them)
+	"open.cachemiss": true, "open.beforeregister": true, "close.unregistered": true,
 	"closedelete.enter": true, "view.updateafter": true, "cb": true,
 }
 
